@@ -38,6 +38,10 @@ def mode_a(tier):
         import shutil
         shutil.rmtree(tmp, ignore_errors=True)
     stats["deviations_caught"] = devs
+    # the same design with DROP MEASUREMENT (no resurrection of a dropped measurement by recovery)
+    rd = vlib.run_tlc("WalMC", "Wal.exh.drop.cfg", timeout=3000)
+    vlib.tlc_must_pass(rd, "Wal.exh.drop.cfg")
+    stats["drop"] = {"cfg": "Wal.exh.drop.cfg", "generated": rd["generated"], "distinct": rd["distinct"], "depth": rd["depth"]}
     return stats
 
 
@@ -51,8 +55,26 @@ def gen_histories(tier, seed):
         if k not in seen and any(s["a"] == "Flush" for s in h):
             seen.add(k)
             out.append(h)
-    limit = 64 if tier == "quick" else 800
-    return out[:limit], {"generated": r["generated"], "traces": len(r["traces"]), "distinct_with_flush": len(out)}
+    limit = 56 if tier == "quick" else 800
+    out = out[:limit]
+    # histories with DROP MEASUREMENT of the measurement that holds cell k3
+    nd = 120 if tier == "quick" else 800
+    r2 = vlib.run_tlc("WalMC", "Wal.sim.drop.cfg", simulate=nd, depth=90, seed=seed + 7, timeout=1800)
+    vlib.tlc_must_pass(r2, "Wal.sim.drop.cfg")
+    drops = []
+    for h in r2["traces"]:
+        k = json.dumps(h)
+        if k in seen:
+            continue
+        seen.add(k)
+        ws = [i for i, s_ in enumerate(h) if s_["a"] == "Write" and s_["k"] == "k3"]
+        ds = [i for i, s_ in enumerate(h) if s_["a"] == "Drop"]
+        if ws and ds and min(ws) < max(ds):
+            drops.append(h)
+    dl = 16 if tier == "quick" else 300
+    out += drops[:dl]
+    return out, {"generated": r["generated"] + r2["generated"], "traces": len(r["traces"]) + len(r2["traces"]),
+                 "distinct_with_flush": len(out) - len(drops[:dl]), "with_drop": len(drops[:dl])}
 
 
 TRACE_CFG = """SPECIFICATION TraceSpec
@@ -63,6 +85,8 @@ CONSTANTS
   MaxFlush = 12
   MaxCrash = 0
   MaxInits = 4
+  DropKeys = {}
+  MaxDrop = 0
   Dev = {"rr_from_0", "wal_remove_one_by_one"}
 INVARIANTS TypeOK WalBeforeAck
 PROPERTIES RemoveAfterRename
@@ -170,7 +194,7 @@ def run(tier, seed):
                 raise vlib.Infra(f"open finding {k} was not re-observed in the thorough tier: known_findings.json must be updated")
     images = sum(r["images"] for r in results)
     cov = {
-        "states": a["distinct"], "transitions": a["generated"],
+        "states": a["distinct"] + a["drop"]["distinct"], "transitions": a["generated"] + a["drop"]["generated"],
         "traces_validated_against_impl": len(results),
         "samples": [hists[0], hists[-1]],
         "evaluations": images + sum(r["nested"] + r["torn"] for r in results),
